@@ -481,6 +481,15 @@ struct Config
         auto& L = hv::Ledger::get();
         const std::string& op = t[0];
         const long allocs_before = L.n_alloc, deallocs_before = L.n_dealloc;
+        std::array<std::size_t, 8> cons_before{};
+        for (std::size_t q = 0; q < vec.size(); ++q) cons_before[q] = vec[q].v ? vec[q].v->memory_consumption() : 0;
+        // C05 footprint clause: an operation never makes a vector consume more than it did, than its source did,
+        // or than a fresh vector of the requested capacity and payload budget would
+        auto footprint = [&](int d, std::size_t bound, const char* what) {
+            if (vec[d].v && vec[d].v->memory_consumption() > bound)
+                violation(std::string("C05:footprint-exceeds-bound op=") + what + " consumption=" + std::to_string(vec[d].v->memory_consumption()) +
+                          " bound=" + std::to_string(bound));
+        };
         if (op == "tables")
         {
             tables();
@@ -578,6 +587,12 @@ struct Config
         {
             int k = vidx(t[1]);
             vec[k].v->reserve(std::stoull(t[2]), std::stoull(t[3]));
+            {
+                const auto es = ET::calculate_element_size(typename LT::FixedSizesArray{fixed_array(vec[k].fixed)});
+                const std::size_t need = FIXED_LOCATOR ? std::stoull(t[3]) + es.stride * std::stoull(t[2])
+                                                       : ET::calculate_needed_memory_size(std::stoull(t[2]), std::stoull(t[3]), es);
+                footprint(k, std::max(cons_before[k], (need + S - 1) / S * S), "reserve");
+            }
             dump(k);
         }
         else if (op == "dump")
@@ -588,6 +603,7 @@ struct Config
         {  // copy vS vT : vT = copy-construct(vS)
             int s = vidx(t[1]), d = vidx(t[2]);
             vec[d].v = std::make_unique<Vector>(std::as_const(*vec[s].v));
+            footprint(d, cons_before[s], "copy");
             vec[d].oracle = vec[s].oracle;
             vec[d].fixed = vec[s].fixed;
             vec[d].oracle_valid = vec[s].oracle_valid;
@@ -609,6 +625,7 @@ struct Config
         {  // copyassign vS vT : vT = vS
             int s = vidx(t[1]), d = vidx(t[2]);
             *vec[d].v = std::as_const(*vec[s].v);
+            footprint(d, std::max(cons_before[d], cons_before[s]), "copyassign");
             vec[d].oracle = vec[s].oracle;
             vec[d].fixed = vec[s].fixed;
             vec[d].oracle_valid = vec[s].oracle_valid;
@@ -621,6 +638,7 @@ struct Config
             const bool steals = AllocT::is_always_equal::value || AllocT::propagate_on_container_move_assignment::value ||
                                 vec[d].v->get_allocator() == vec[s].v->get_allocator();
             *vec[d].v = std::move(*vec[s].v);
+            footprint(d, std::max(cons_before[d], cons_before[s]), steals ? "moveassign-steal" : "moveassign-elementwise");
             if (s != d)
             {
                 vec[d].oracle = vec[s].oracle;
